@@ -13,6 +13,21 @@ R15.2  the polling loop has no infinite path once every awaited entity is
        tracked, and the rule fires iff a cycle through the loop head remains.
 R15.3  every `return` of the four functions returns a state read that is not
        older than the polling loop.
+R15.4  wait_tasks / wait_pilots: the keep-waiting condition, evaluated over the
+       folded state tables for every request, drops an entity that is in a
+       requested state or final and keeps one that is before every requested
+       state.
+R15.5  wait_tasks / wait_pilots: monotone shrink.  On every path through one
+       round of the polling loop the check list at the end of the round holds
+       only members it held at the start (abstract interpretation: subset-of-
+       the-previous-list / element-of-it / taken-from-<other collection>).
+       A list rebuilt from another collection is a violation iff leaving the
+       list is not permanent over the state table (an entity dropped in state
+       s1 qualifies again in a later state s2); if leaving is permanent,
+       re-filtering the list of awaited entities is equivalent and accepted.
+R15.6  same source: every comparison of the polling loop that involves the
+       timeout and a clock is computed (through the definitions that reach it
+       and single-return helpers) from reads of one clock function only.
 """
 
 import ast
@@ -552,11 +567,16 @@ def _timeout_atom(f, atom, tname):
         return True
     if not reads_name(atom, tname):
         return None
+    if isinstance(atom, ast.Call) and dotted(atom.func) == 'bool' and \
+            len(atom.args) == 1 and not atom.keywords:
+        return _timeout_atom(f, atom.args[0], tname)
     if isinstance(atom, ast.Compare) and len(atom.ops) == 1:
         op = atom.ops[0]
         l, r = atom.left, atom.comparators[0]
-        if isinstance(r, ast.Constant) and r.value is None and \
-                isinstance(l, ast.Name) and l.id == tname:
+        if isinstance(r, ast.Constant) and r.value is None and (
+                isinstance(l, ast.Name) and l.id == tname or
+                isinstance(l, ast.BinOp)):
+            # the timeout, or a number computed from it (a deadline)
             if isinstance(op, (ast.IsNot, ast.NotEq)):
                 return True
             if isinstance(op, (ast.Is, ast.Eq)):
@@ -571,6 +591,68 @@ def _timeout_atom(f, atom, tname):
     raise AnalysisError('UNRECOGNISED-IDIOM %s: test `%s` on the timeout is '
                         'not a form the recogniser knows' % (f.where,
                                                              short(atom, 60)))
+
+
+def _timeout_view(f, g, node, tname):
+    """the test of a cfg node with every local that is computed from the
+    timeout (a deadline: `end = start + timeout`, possibly `None` / 0 when no
+    timeout was given) replaced by that computation"""
+    from ..flow import reaching_defs
+    atom = node.ast
+    mapping = {}
+    for x in walk(atom, nested=True):
+        if not (isinstance(x, ast.Name) and isinstance(x.ctx, ast.Load)) or \
+                x.id == tname or x.id in mapping or x.id in f.params:
+            continue
+        vals = [v for dn, v in reaching_defs(g, x.id, node.id)]
+        dep = [v for v in vals if v is not None and reads_name(v, tname)]
+        if not dep:
+            continue
+        rest = [v for v in vals if not any(v is d for d in dep)]
+        if len(dep) != 1 or any(not (isinstance(v, ast.Constant) and
+                                     not v.value) for v in rest):
+            raise AnalysisError(
+                'UNRECOGNISED-IDIOM %s: `%s` in the test `%s` is computed '
+                'from the timeout in a way the recogniser does not follow'
+                % (f.where, x.id, short(atom, 60)))
+        mapping[x.id] = dep[0]
+    return substitute(atom, mapping) if mapping else atom
+
+
+def _timeout_truth(prog, f, g, node, tname, cache):
+    """truth of the test of a cfg node once the timeout has expired (True /
+    False / None: not about the timeout); predicates extracted into helpers
+    are looked into"""
+    if node.id not in cache:
+        atom = _timeout_view(f, g, node, tname)
+        body = inline_pred(prog, f, atom) if isinstance(atom, ast.Call) \
+            else None
+        cache[node.id] = atom if body is None else body
+    return truth3(cache[node.id], lambda x: _timeout_atom(f, x, tname))
+
+
+SHRINK_CALLS = ('remove', 'pop', 'popleft', 'discard', 'clear',
+                'difference_update', 'intersection_update')
+
+
+def _shrinks_in_place(g, head):
+    """statements of the loop which take members out of a local collection in
+    place (the emptiness tracking of the loop interpreter does not model
+    them)"""
+    out = []
+    for n in g.nodes:
+        if n.id not in g.loop_body[head] or n.kind != 'stmt' or n.ast is None:
+            continue
+        for c in calls_in(n.ast):
+            if isinstance(c.func, ast.Attribute) and \
+                    c.func.attr in SHRINK_CALLS and \
+                    isinstance(c.func.value, ast.Name):
+                out.append(n)
+        if isinstance(n.ast, ast.Delete) and any(
+                isinstance(t, ast.Subscript) and isinstance(t.value, ast.Name)
+                for t in n.ast.targets):
+            out.append(n)
+    return out
 
 
 EMPTY_CALLS = ('list', 'dict', 'set')
@@ -590,6 +672,10 @@ def _empty_value(prog, f, value, st, assume, final, aliases):
         return False
     if isinstance(value, ast.Name):
         return value.id in st
+    if isinstance(value, ast.Call):
+        body = inline_pred(prog, f, value)
+        if body is not None:
+            return _empty_value(prog, f, body, st, assume, final, aliases)
     if isinstance(value, (ast.ListComp, ast.SetComp, ast.GeneratorExp)) and \
             len(value.generators) == 1:
         gen = value.generators[0]
@@ -621,6 +707,7 @@ def loop_has_infinite_path(prog, f, g, head, assume, final, tname):
     body = g.loop_body[head] | {head}
     aliases = _state_aliases(f, g, head)
     preds = {}
+    tviews = {}
 
     def transfer(node, edge, st):
         if edge.label == 'exc':
@@ -644,7 +731,7 @@ def loop_has_infinite_path(prog, f, g, head, assume, final, tname):
                         if tv is not None and tv != want:
                             return None
             if assume == 'timeout':
-                tv = _timeout_atom(f, a, tname)
+                tv = _timeout_truth(prog, f, g, node, tname, tviews)
                 if tv is not None and tv != want:
                     return None
             x = None
@@ -817,6 +904,14 @@ def r15_2(prog, rep, rid='R15.2'):
                 if wit is not None:
                     pname, var, _ = normalisation(prog, f, g, head)
                     unk = _unknown_loop_tests(f, g, head, prog)
+                    shr = _shrinks_in_place(g, head)
+                    if shr:
+                        raise AnalysisError(
+                            'UNRECOGNISED-IDIOM %s: the polling loop has no '
+                            'recognisable exit on a final state, but it takes '
+                            'entities off a list in place (`%s`), which the '
+                            'loop interpreter does not model'
+                            % (f.where, short(shr[0].ast, 60)))
                     if _augments_with_final(prog, f, var, final) or unk:
                         raise AnalysisError(
                             'UNRECOGNISED-IDIOM %s: the polling loop has no '
@@ -882,6 +977,35 @@ def _is_state_read(value):
     return False
 
 
+def _filled_by_state_reads(g, name, dn, val):
+    """`name = list()` / `[]` at cfg node dn, then only `name.append(<state
+    read>)` before any other definition (the loop form of a comprehension of
+    state reads): [an equivalent list expression, appending node ids...];
+    else []"""
+    if not (isinstance(val, (ast.List, ast.Call)) and (
+            isinstance(val, ast.List) and not val.elts or
+            isinstance(val, ast.Call) and dotted(val.func) == 'list' and
+            not val.args and not val.keywords)):
+        return []
+    others = {n.id for n in g.nodes if name in stores_of(n)} - {dn.id}
+    live = g.reachable(succ_ids(g, dn.id), skip_nodes=others)
+    reads, nodes = [], []
+    for n in g.nodes:
+        if n.id not in live or n.kind != 'stmt' or n.ast is None:
+            continue
+        for c in calls_in(n.ast):
+            if isinstance(c.func, ast.Attribute) and \
+                    isinstance(c.func.value, ast.Name) and \
+                    c.func.value.id == name and c.func.attr in MUT:
+                if c.func.attr != 'append' or len(c.args) != 1:
+                    return []
+                reads.append(c.args[0])
+                nodes.append(n.id)
+    if not reads:
+        return []
+    return [ast.List(elts=reads, ctx=ast.Load())] + nodes
+
+
 def r15_3(prog, rep, rid='R15.3'):
     rep.rule(rid, 'every return of the wait functions returns the current '
              'state(s) of the awaited entities', minimum=6)
@@ -923,9 +1047,12 @@ def r15_3(prog, rep, rid='R15.3'):
                     for dn in defs:
                         val = dn.ast.value if dn.kind == 'stmt' and \
                             isinstance(dn.ast, ast.Assign) else None
+                        filled = _filled_by_state_reads(g, base.id, dn, val)
+                        if filled:
+                            val = filled[0]
                         if val is not None and _is_state_read(val):
-                            stale = head in g.reachable(dn.id) or \
-                                dn.id in g.loop_body[head] and False
+                            stale = any(head in g.reachable(x)
+                                        for x in [dn.id] + filled[1:])
                             if stale:
                                 verdicts.append((False, 'returns %r, read '
                                                  'before the polling loop (a '
@@ -1157,49 +1284,218 @@ def _min_var(f, name, var, ev):
     return None
 
 
-def keep_conditions(f, g, head):
+def pending_vars(f, g, head):
+    """the check list(s) of a manager wait loop: local names whose emptiness
+    is a test of the polling loop (`while <P> and ..`, `if not <P>: break`,
+    `len(<P>)`) and which are rebuilt or mutated inside the loop"""
+    body = g.loop_body[head]
+    changed = set()
+    for n in g.nodes:
+        if n.id not in body or n.ast is None:
+            continue
+        changed |= set(stores_of(n))
+        if n.kind == 'stmt':
+            for c in calls_in(n.ast):
+                if isinstance(c.func, ast.Attribute) and \
+                        isinstance(c.func.value, ast.Name):
+                    changed.add(c.func.value.id)
+    out = []
+    for n in g.nodes:
+        if n.kind != 'test' or n.id not in body:
+            continue
+        a = n.ast
+        if isinstance(a, ast.Call) and dotted(a.func) == 'len' and \
+                len(a.args) == 1:
+            a = a.args[0]
+        if isinstance(a, ast.Compare) and len(a.ops) == 1 and \
+                isinstance(a.left, ast.Call) and \
+                dotted(a.left.func) == 'len' and len(a.left.args) == 1:
+            a = a.left.args[0]
+        if isinstance(a, ast.Name) and a.id in changed and \
+                a.id not in f.params and a.id not in out:
+            out.append(a.id)
+    return out
+
+
+def flows_to(f, g, head, targets):
+    """names whose value is handed on (plain copy) to one of `targets` inside
+    the loop: `P = X`, `P = list(X)`, `P = X[:]`, `P = sorted(X)`, `P = X.copy()`"""
+    body = g.loop_body[head]
+    out = set(targets)
+    grew = True
+    while grew:
+        grew = False
+        for n in g.nodes:
+            if n.id not in body or n.kind != 'stmt' or \
+                    not isinstance(n.ast, ast.Assign):
+                continue
+            if not any(isinstance(t, ast.Name) and t.id in out
+                       for t in n.ast.targets):
+                continue
+            src = _copy_source(n.ast.value)
+            if isinstance(src, ast.Name) and src.id not in out:
+                out.add(src.id)
+                grew = True
+    return out
+
+
+COPY_CALLS = ('list', 'tuple', 'set', 'frozenset', 'sorted', 'reversed')
+
+
+def _copy_source(value):
+    """the expression a plain copy takes its members from (itself if the
+    value is not a copy)"""
+    while True:
+        if isinstance(value, ast.Call) and dotted(value.func) in COPY_CALLS \
+                and len(value.args) == 1 and \
+                not isinstance(value.args[0], ast.Starred):
+            value = value.args[0]
+        elif isinstance(value, ast.Call) and \
+                isinstance(value.func, ast.Attribute) and \
+                value.func.attr == 'copy' and not value.args:
+            value = value.func.value
+        elif isinstance(value, ast.Subscript) and \
+                isinstance(value.slice, ast.Slice):
+            value = value.value
+        else:
+            return value
+
+
+def keep_conditions(f, g, head, prog=None):
     """[(entity variable, [(atom, polarity)], ast)]: conditions under which
     an awaited entity stays on the check list of the polling loop"""
+    from ..flow import guards, loop_slice
     body = g.loop_body[head]
-    loop = g.loop_ast[head]
-    tested = {n.id for n in walk(loop.test) if isinstance(n, ast.Name)}
+    pend = flows_to(f, g, head, pending_vars(f, g, head))
     out = []
-    smap = None
     for n in g.nodes:
         if n.id not in body or n.ast is None:
             continue
         if n.kind == 'stmt' and isinstance(n.ast, ast.Assign) and \
-                isinstance(n.ast.value, (ast.ListComp, ast.GeneratorExp)) and \
-                any(isinstance(t, ast.Name) and t.id in tested
+                any(isinstance(t, ast.Name) and t.id in pend
                     for t in n.ast.targets):
-            v = n.ast.value
-            if len(v.generators) == 1 and \
+            v = _copy_source(n.ast.value)
+            if isinstance(v, ast.Call) and prog is not None:
+                v = inline_pred(prog, f, v) or v
+            if isinstance(v, (ast.ListComp, ast.SetComp, ast.GeneratorExp)) \
+                    and len(v.generators) == 1 and \
                     isinstance(v.generators[0].target, ast.Name):
                 atoms = []
                 for c in v.generators[0].ifs:
                     atoms += _conj_atoms(c)
                 out.append((v.generators[0].target.id, atoms, n.ast))
         if n.kind == 'stmt':
+            adds = []               # (entity variable, site)
             for c in calls_in(n.ast):
                 if isinstance(c.func, ast.Attribute) and \
-                        c.func.attr == 'append' and len(c.args) == 1 and \
-                        isinstance(c.args[0], ast.Name):
-                    ev = c.args[0].id
-                    h = None
-                    for hh in reversed(n.loops):
-                        hn = g.nodes[hh]
-                        if hn.kind == 'for' and hh in body and \
-                                ev in stores_in_target(hn.ast.target):
-                            h = hn
-                            break
-                    if h is None or not (isinstance(h.ast.iter, ast.Name) and
-                                         h.ast.iter.id in tested):
-                        continue
-                    from ..flow import guards, loop_slice
-                    start = loop_slice(g, h.id)[0]
-                    atoms = [(g.nodes[t].ast, lab == 'T')
-                             for t, lab in guards(g, n.id, start=start)]
-                    out.append((ev, atoms, c))
+                        c.func.attr in ('append', 'add') and \
+                        len(c.args) == 1 and \
+                        isinstance(c.args[0], ast.Name) and \
+                        isinstance(c.func.value, ast.Name) and \
+                        c.func.value.id in pend:
+                    adds.append((c.args[0].id, c))
+            a = n.ast
+            if isinstance(a, ast.AugAssign) and isinstance(a.op, ast.Add) and \
+                    isinstance(a.target, ast.Name) and a.target.id in pend \
+                    and isinstance(a.value, (ast.List, ast.Tuple)) and \
+                    len(a.value.elts) == 1 and \
+                    isinstance(a.value.elts[0], ast.Name):
+                adds.append((a.value.elts[0].id, a))
+            for ev, c in adds:
+                h = None
+                for hh in reversed(n.loops):
+                    hn = g.nodes[hh]
+                    if hn.kind == 'for' and hh in body and \
+                            ev in stores_in_target(hn.ast.target):
+                        h = hn
+                        break
+                if h is None:
+                    continue
+                start = loop_slice(g, h.id)[0]
+                atoms = [(g.nodes[t].ast, lab == 'T')
+                         for t, lab in guards(g, n.id, start=start)]
+                out.append((ev, atoms, c))
+    return out
+
+
+def keep_tables(prog, f, g, head, var, what):
+    """every statement that keeps entities on the check list, with its
+    keep-waiting condition evaluated for every request (one state, two states)
+    and every entity state: [dict(evar, site, cond, relevant, ignored,
+    requests, domain, table, kept={(state, tuple(request)): bool})]"""
+    table = prog.const('states.py', '_%s_state_values' % what)
+    domain = [s for s in table if s is not None]
+    keeps = keep_conditions(f, g, head, prog)
+    if not keeps:
+        raise AnalysisError('UNRECOGNISED-IDIOM %s: no statement keeps '
+                            'entities on the check list of the polling '
+                            'loop' % f.where)
+    out = []
+    for evar, atoms0, site in keeps:
+        atoms = []
+        for atom, pol in atoms0:
+            body = inline_pred(prog, f, atom)
+            if body is not None:
+                atoms += _conj_atoms(body, pol)
+            else:
+                atoms.append((atom, pol))
+
+        def is_state(e, evar=evar):
+            return isinstance(e, ast.Attribute) and \
+                e.attr in STATE_ATTRS and \
+                isinstance(e.value, ast.Name) and e.value.id == evar
+        ev = StateEval(prog, f, is_state,
+                       resolve=lambda n, evar=evar: single_assign(f, n)
+                       if n not in (evar, var) else None)
+        # names the atoms read
+        relevant = []
+        ignored = []
+        minvars = {}
+        for atom, pol in atoms:
+            names = {n.id for n in walk(atom) if isinstance(n, ast.Name)
+                     and isinstance(n.ctx, ast.Load)}
+            if not (reads_state_attr(atom) and evar in names or
+                    var in names or names & set(minvars)):
+                mv = [x for x in names
+                      if x not in (evar, var) and
+                      _min_var(f, x, var, ev) is not None]
+                if not mv:
+                    ignored.append((atom, pol))
+                    continue
+            for x in names - {evar, var}:
+                m = _min_var(f, x, var, ev)
+                if m is not None:
+                    minvars[x] = m
+            relevant.append((atom, pol))
+        requests = [[r] for r in domain] + \
+                   [[a, b] for a in domain for b in domain if a != b]
+        kept = {}
+        try:
+            for R in requests:
+                ev.names = {var: list(R)}
+                for x, (init, elt, lv) in minvars.items():
+                    vals = [init]
+                    for r in R:
+                        ev.names[lv] = r
+                        vals.append(ev.ev(elt))
+                    ev.names.pop(lv, None)
+                    ev.names[x] = min(vals)
+                for s in domain:
+                    kept[(s, tuple(R))] = all(ev.holds(a, s) == pol
+                                              for a, pol in relevant)
+        except Uneval as e:
+            raise AnalysisError('UNRECOGNISED-IDIOM %s: cannot evaluate '
+                                'the keep-waiting condition `%s` over the '
+                                'state table (%s)' % (
+                                    f.where, ' and '.join(
+                                        ('%s' if p else 'not (%s)')
+                                        % short(a, 50)
+                                        for a, p in relevant), e))
+        cond = ' and '.join(('%s' if p else 'not (%s)') % unparse(a)
+                            for a, p in relevant) or 'True'
+        out.append(dict(evar=evar, site=site, cond=cond, relevant=relevant,
+                        ignored=ignored, requests=requests, domain=domain,
+                        table=table, kept=kept))
     return out
 
 
@@ -1215,80 +1511,20 @@ def r15_4(prog, rep, rid='R15.4'):
         g = cfg_of(f)
         head = wait_loop(f, g)
         pname, var, _ = normalisation(prog, f, g, head)
-        table = prog.const('states.py', '_%s_state_values' % what)
-        domain = [s for s in table if s is not None]
-        keeps = keep_conditions(f, g, head)
-        if not keeps:
-            raise AnalysisError('UNRECOGNISED-IDIOM %s: no statement keeps '
-                                'entities on the check list of the polling '
-                                'loop' % f.where)
-        for evar, atoms0, site in keeps:
-            atoms = []
-            for atom, pol in atoms0:
-                body = inline_pred(prog, f, atom)
-                if body is not None:
-                    atoms += _conj_atoms(body, pol)
-                else:
-                    atoms.append((atom, pol))
-
-            def is_state(e, evar=evar):
-                return isinstance(e, ast.Attribute) and \
-                    e.attr in STATE_ATTRS and \
-                    isinstance(e.value, ast.Name) and e.value.id == evar
-            ev = StateEval(prog, f, is_state,
-                           resolve=lambda n: single_assign(f, n)
-                           if n not in (evar, var) else None)
-            # names the atoms read
-            relevant = []
-            minvars = {}
-            for atom, pol in atoms:
-                names = {n.id for n in walk(atom) if isinstance(n, ast.Name)
-                         and isinstance(n.ctx, ast.Load)}
-                if not (reads_state_attr(atom) and evar in names or
-                        var in names or names & set(minvars)):
-                    mv = [x for x in names
-                          if x not in (evar, var) and
-                          _min_var(f, x, var, ev) is not None]
-                    if not mv:
-                        continue
-                for x in names - {evar, var}:
-                    m = _min_var(f, x, var, ev)
-                    if m is not None:
-                        minvars[x] = m
-                relevant.append((atom, pol))
-            requests = [[r] for r in domain] + \
-                       [[a, b] for a in domain for b in domain if a != b]
+        for k in keep_tables(prog, f, g, head, var, what):
+            table, domain, kept = k['table'], k['domain'], k['kept']
+            site, cond = k['site'], k['cond']
             stuck, early = [], []
-            try:
-                for R in requests:
-                    ev.names = {var: list(R)}
-                    for x, (init, elt, lv) in minvars.items():
-                        vals = [init]
-                        for r in R:
-                            ev.names[lv] = r
-                            vals.append(ev.ev(elt))
-                        ev.names.pop(lv, None)
-                        ev.names[x] = min(vals)
-                    low = min(table[r] for r in R)
-                    for s in domain:
-                        kept = all(ev.holds(a, s) == pol
-                                   for a, pol in relevant)
-                        if kept and (s in final or any(
-                                table[r] == table[s] for r in R)):
-                            stuck.append((s, R))
-                        if not kept and s not in final and table[s] < low:
-                            early.append((s, R))
-            except Uneval as e:
-                raise AnalysisError('UNRECOGNISED-IDIOM %s: cannot evaluate '
-                                    'the keep-waiting condition `%s` over the '
-                                    'state table (%s)' % (
-                                        f.where, ' and '.join(
-                                            ('%s' if p else 'not (%s)')
-                                            % short(a, 50)
-                                            for a, p in relevant), e))
-            rep.stat('state_combinations', len(requests) * len(domain))
-            cond = ' and '.join(('%s' if p else 'not (%s)') % unparse(a)
-                                for a, p in relevant) or 'True'
+            for R in k['requests']:
+                low = min(table[r] for r in R)
+                for s in domain:
+                    kp = kept[(s, tuple(R))]
+                    if kp and (s in final or any(
+                            table[r] == table[s] for r in R)):
+                        stuck.append((s, R))
+                    if not kp and s not in final and table[s] < low:
+                        early.append((s, R))
+            rep.stat('state_combinations', len(k['requests']) * len(domain))
             ex = stuck[0] if stuck else None
             rep.check(not stuck, rid, f, '%s: a %s that is in a requested '
                       'state (or final) is dropped from the check list'
@@ -1324,6 +1560,510 @@ def r15_4(prog, rep, rid='R15.4'):
 
 
 # ------------------------------------------------------------------------------
+# R15.5  the check list only shrinks
+#
+# Abstract values of a local name inside one round of the polling loop:
+#   ('sub',)          a collection whose members all were on the check list
+#                     when the round started
+#   ('elem',)         one member of such a collection
+#   ('from', leaves)  a collection that may hold members taken from `leaves`
+#   ('efrom', leaves) one member of such a collection
+# a leaf is (text, 'inv') for a local collection the loop never rebinds nor
+# mutates, (text, 'indep') for an expression that does not depend on the check
+# list at all (it reads no name that holds, or may hold, members of it), or
+# (text, 'opaque') for anything the analysis cannot follow.
+#
+SUBV  = ('sub',)
+ELEMV = ('elem',)
+GROW   = {'append': 0, 'add': 0, 'appendleft': 0, 'insert': 1}
+GROW_N = ('extend', 'update', 'extendleft')
+
+
+def _opaque(node):
+    return ('from', frozenset([(short(node, 50) if not isinstance(node, str)
+                                else node, 'opaque')]))
+
+
+def _join(a, b):
+    vals = [x for x in (a, b) if x != SUBV]
+    if not vals:
+        return SUBV
+    leaves = set()
+    for v in vals:
+        if v[0] != 'from':
+            return _opaque('<element used as a collection>')
+        leaves |= v[1]
+    return ('from', frozenset(leaves))
+
+
+class Shrink:
+    """does the check list at the end of a round only hold entities it held
+    at the start of the round, on every path through the loop body"""
+
+    def __init__(self, f, g, head, pvar, prog=None):
+        self.f, self.g, self.head, self.pvar = f, g, head, pvar
+        self.prog = prog
+        self.body = g.loop_body[head]
+        self.unstable = set()           # rebound or mutated inside the loop
+        for n in g.nodes:
+            if n.id not in self.body or n.ast is None:
+                continue
+            self.unstable |= set(stores_of(n))
+            if n.kind not in ('stmt', 'for', 'test'):
+                continue
+            for x in walk(n.ast if n.kind != 'for' else n.ast.iter):
+                if isinstance(x, ast.Call) and \
+                        isinstance(x.func, ast.Attribute) and \
+                        isinstance(x.func.value, ast.Name):
+                    self.unstable.add(x.func.value.id)
+                if isinstance(x, (ast.Subscript, ast.Attribute)) and \
+                        isinstance(x.ctx, (ast.Store, ast.Del)) and \
+                        isinstance(x.value, ast.Name):
+                    self.unstable.add(x.value.id)
+                if isinstance(x, ast.NamedExpr):
+                    self.unstable |= set(stores_in_target(x.target))
+
+    # -- values
+    def name_value(self, name, d):
+        if name in d:
+            v = d[name]
+            return v if v[0] in ('sub', 'from') else \
+                _opaque('<element %s used as a collection>' % name)
+        if name in self.unstable or name in ('self', 'cls'):
+            return _opaque(name)
+        return ('from', frozenset([(name, 'inv')]))
+
+    def other(self, e, d):
+        """value of an expression the analysis does not look into"""
+        bound = set()
+        for x in walk(e, nested=True):
+            if isinstance(x, ast.comprehension):
+                bound |= set(stores_in_target(x.target))
+            elif isinstance(x, ast.Lambda):
+                bound |= {a.arg for a in x.args.args}
+        for x in walk(e, nested=True):
+            if not (isinstance(x, ast.Name) and isinstance(x.ctx, ast.Load)) \
+                    or x.id in bound:
+                continue
+            if x.id in d:
+                v = d[x.id]
+                if v[0] not in ('from', 'efrom') or \
+                        any(k == 'opaque' for _, k in v[1]):
+                    return _opaque(e)
+            elif x.id in self.unstable:
+                return _opaque(e)
+        return ('from', frozenset([(short(e, 50), 'indep')]))
+
+    def coll(self, e, d):
+        e = _copy_source(e)
+        if isinstance(e, ast.Name):
+            return self.name_value(e.id, d)
+        if isinstance(e, (ast.List, ast.Tuple, ast.Set)):
+            v = SUBV
+            for x in e.elts:
+                v = _join(v, self.elem(x, d))
+            return v
+        if isinstance(e, ast.Call) and dotted(e.func) in COPY_CALLS + (
+                'dict', 'deque', 'collections.deque') and \
+                not e.args and not e.keywords:
+            return SUBV
+        if isinstance(e, ast.Call) and dotted(e.func) == 'filter' and \
+                len(e.args) == 2:
+            return self.coll(e.args[1], d)
+        if isinstance(e, (ast.ListComp, ast.SetComp, ast.GeneratorExp)) and \
+                len(e.generators) == 1 and \
+                isinstance(e.generators[0].target, ast.Name) and \
+                isinstance(e.elt, ast.Name) and \
+                e.elt.id == e.generators[0].target.id:
+            return self.coll(e.generators[0].iter, d)
+        if isinstance(e, ast.BinOp) and isinstance(e.op, ast.Add):
+            return _join(self.coll(e.left, d), self.coll(e.right, d))
+        if isinstance(e, ast.BinOp) and isinstance(e.op, (ast.Sub,
+                                                          ast.BitAnd)):
+            return self.coll(e.left, d)
+        if isinstance(e, ast.IfExp):
+            return _join(self.coll(e.body, d), self.coll(e.orelse, d))
+        if isinstance(e, ast.Call) and self.prog is not None:
+            body = inline_pred(self.prog, self.f, e)
+            if body is not None:
+                return self.coll(body, d)
+        return self.other(e, d)
+
+    def elem(self, e, d):
+        """the collection value a single added member contributes"""
+        if isinstance(e, ast.Name) and e.id in d:
+            v = d[e.id]
+            if v == ELEMV:
+                return SUBV
+            if v[0] == 'efrom':
+                return ('from', v[1])
+            return _opaque(e)
+        return self.other(e, d)
+
+    # -- transfer
+    @staticmethod
+    def freeze(d):
+        return tuple(sorted(d.items(), key=lambda kv: kv[0]))
+
+    def transfer(self, node, edge, st):
+        if edge.label == 'exc':
+            return st
+        a = node.ast
+        if node.kind == 'for':
+            if edge.label != 'iter':
+                return st
+            d = dict(st)
+            it, tgt = a.iter, a.target
+            if isinstance(it, ast.Call) and dotted(it.func) == 'enumerate' \
+                    and it.args and isinstance(tgt, ast.Tuple) and \
+                    len(tgt.elts) == 2:
+                for nm in stores_in_target(tgt.elts[0]):
+                    d.pop(nm, None)
+                it, tgt = it.args[0], tgt.elts[1]
+            v = self.coll(it, d)
+            if isinstance(tgt, ast.Name):
+                d[tgt.id] = ELEMV if v == SUBV else ('efrom', v[1])
+            else:
+                for nm in stores_in_target(tgt):
+                    d[nm] = ('efrom', _opaque(tgt)[1])
+            return self.freeze(d)
+        if node.kind != 'stmt' or a is None:
+            return st
+        d = dict(st)
+        if isinstance(a, (ast.Assign, ast.AnnAssign)):
+            if a.value is None:
+                return st
+            v = self.coll(a.value, d)
+            targets = a.targets if isinstance(a, ast.Assign) else [a.target]
+            for t in targets:
+                if isinstance(t, ast.Name):
+                    d[t.id] = v
+                elif isinstance(t, (ast.Tuple, ast.List, ast.Starred)):
+                    for nm in stores_in_target(t):
+                        d[nm] = _opaque(t)
+                elif isinstance(t, ast.Subscript) and \
+                        isinstance(t.value, ast.Name):
+                    x = t.value.id
+                    add = self.coll(a.value, d) \
+                        if isinstance(t.slice, ast.Slice) \
+                        else self.elem(a.value, d)
+                    d[x] = _join(self.name_value(x, d), add)
+        elif isinstance(a, ast.AugAssign):
+            if isinstance(a.target, ast.Name):
+                x = a.target.id
+                if isinstance(a.op, (ast.Add, ast.BitOr)):
+                    d[x] = _join(self.name_value(x, d), self.coll(a.value, d))
+                elif not isinstance(a.op, (ast.Sub, ast.BitAnd)):
+                    d[x] = _opaque(a)
+        else:
+            for c in calls_in(a):
+                if not (isinstance(c.func, ast.Attribute) and
+                        isinstance(c.func.value, ast.Name)):
+                    continue
+                x, m = c.func.value.id, c.func.attr
+                if m in GROW and len(c.args) > GROW[m]:
+                    d[x] = _join(self.name_value(x, d),
+                                 self.elem(c.args[GROW[m]], d))
+                elif m in GROW_N and c.args:
+                    d[x] = _join(self.name_value(x, d),
+                                 self.coll(c.args[0], d))
+        return self.freeze(d)
+
+    def run(self):
+        """(value of the check list at a back edge that is not 'sub' | None,
+        witness literals, product states)"""
+        g, head = self.g, self.head
+        nodes = self.body | {head}
+        ex = Exploration(g, head, self.freeze({self.pvar: SUBV}),
+                         self.transfer, stop=lambda nid: nid not in nodes,
+                         stop_edge=lambda e: e.back and e.dst == head)
+        ends = [t for t in ex.terminals if t.node == head]
+        if not ends:
+            raise AnalysisError('UNRECOGNISED-IDIOM %s: no path through the '
+                                'polling loop returns to its head'
+                                % self.f.where)
+        for t in ends:
+            v = dict(t.state).get(self.pvar, SUBV)
+            if v != SUBV:
+                if v[0] != 'from':
+                    v = _opaque(self.pvar)
+                return v, ex.literals(t), ex.states
+        return None, None, ex.states
+
+
+def _canon(g, head, name, depth=0):
+    """what a local collection is when the loop is entered: its own name, the
+    names it is a plain copy of, and the text of its defining expression"""
+    from ..flow import reaching_defs
+    out = {name}
+    if depth > 4:
+        return out
+    body = g.loop_body[head]
+    for dn, v in reaching_defs(g, name, head):
+        if dn.id in body or dn.id == head or v is None:
+            continue
+        src = _copy_source(v)
+        if isinstance(src, ast.Name):
+            out |= _canon(g, head, src.id, depth + 1)
+        else:
+            out.add('=' + unparse(src))
+    return out
+
+
+def r15_5(prog, rep, rid='R15.5'):
+    rep.rule(rid, 'wait_tasks / wait_pilots: the check list of a round is '
+             'built from the check list of the previous round, so an entity '
+             'that was seen in a requested state is never waited for again '
+             '(unless leaving the list is permanent anyway)', minimum=2)
+    final = _final(prog)
+    for rel, cname, mname, what in ANCHORS[2:]:
+        f = prog.method(rel, cname, mname)
+        rep.saw(f)
+        g = cfg_of(f)
+        head = wait_loop(f, g)
+        loop = g.loop_ast[head]
+        pend = pending_vars(f, g, head)
+        if len(pend) != 1:
+            raise AnalysisError('UNRECOGNISED-IDIOM %s: expected one check '
+                                'list whose emptiness ends the polling loop, '
+                                'found %s' % (f.where, pend))
+        pvar = pend[0]
+        bad, wit, n = Shrink(f, g, head, pvar, prog).run()
+        rep.stat('paths', n)
+        what_ok = '%s: the check list %r only shrinks from round to round' \
+            % (f.qual, pvar)
+        if bad is None:
+            rep.ok(rid, f, what_ok, f.loc(loop))
+            continue
+        shr = _shrinks_in_place(g, head)
+        if shr:
+            raise AnalysisError(
+                'UNRECOGNISED-IDIOM %s: the check list %r is not rebuilt from '
+                'itself, and the loop also takes members off a list in place '
+                '(`%s`): aliases of that list are not followed'
+                % (f.where, pvar, short(shr[0].ast, 50)))
+        leaves = sorted(bad[1])
+        opaque = [t for t, k in leaves if k == 'opaque']
+        if opaque:
+            raise AnalysisError(
+                'UNRECOGNISED-IDIOM %s: cannot relate the check list %r at '
+                'the end of a round to its value at the start of the round '
+                '(it takes members from `%s`)' % (f.where, pvar, opaque[0]))
+        srcs = [t for t, k in leaves]
+        indep = [t for t, k in leaves if k == 'indep']
+        # is leaving the list permanent?  states only move up the value table
+        pname, var, _ = normalisation(prog, f, g, head)
+        again = []
+        ignored = []
+        for k in keep_tables(prog, f, g, head, var, what):
+            table, kept = k['table'], k['kept']
+            ignored += k['ignored']
+            for R in k['requests']:
+                for s1 in k['domain']:
+                    if s1 in final or kept[(s1, tuple(R))]:
+                        continue
+                    for s2 in k['domain']:
+                        if table[s2] > table[s1] and kept[(s2, tuple(R))]:
+                            again.append((R, s1, s2, k['cond']))
+        if again and ignored:
+            raise AnalysisError(
+                'UNRECOGNISED-IDIOM %s: the check list %r is rebuilt from %s '
+                'under a condition `%s` the state table does not decide'
+                % (f.where, pvar, srcs, short(ignored[0][0], 50)))
+        if again:
+            # example: one requested state which the entity rests in, not
+            # the very first state, and the state right after it
+            again.sort(key=lambda x: (len(x[0]), x[1] not in x[0],
+                                      table[x[1]] < 2, table[x[1]],
+                                      table[x[2]]))
+            R, s1, s2, cond = again[0]
+            rep.bad(rid, f, 'check list %s rebuilt from %s'
+                    % (pvar, ', '.join(srcs)),
+                    '%s: in every round the check list %r is rebuilt from %s '
+                    'and not from its own previous value, so a %s that left '
+                    'the list is examined again.  Leaving is not permanent: '
+                    'with %s requested a %s in state %s is dropped, but once '
+                    'it moved on to %s the keep-waiting condition `%s` holds '
+                    'again (%d such request/state combinations).  The wait '
+                    'then returns only when all %ss are in a requested state '
+                    'at the same moment, not when each of them has reached it'
+                    % (f.qual, pvar, ' / '.join('`%s`' % x for x in srcs),
+                       what, R, what, s1, s2, short(cond, 100), len(again),
+                       what), f.loc(loop),
+                    history='%s.%s([a, b], state=%r), no timeout: %s a '
+                    'reaches %s and moves on to %s before %s b reaches %s; '
+                    'a is back on the check list, the call does not return '
+                    'although both had reached the requested state'
+                    % (cname, mname, R[0] if len(R) == 1 else R, what, s1, s2,
+                       what, s1), path=wit)
+            continue
+        # permanent: re-examination is harmless if the source is the list of
+        # awaited entities itself
+        mine = _canon(g, head, pvar)
+        alien = indep + [x for x in srcs if x not in indep and
+                         not (_canon(g, head, x) & mine)]
+        if alien:
+            raise AnalysisError(
+                'UNRECOGNISED-IDIOM %s: the check list %r is rebuilt in every '
+                'round from `%s`, which is not recognisably the list of '
+                'awaited entities the loop starts with'
+                % (f.where, pvar, alien[0]))
+        rep.ok(rid, f, '%s: the check list %r is re-filtered from the awaited '
+               'entities %s in every round; an entity that left the list never '
+               'qualifies again (condition monotone over the state table)'
+               % (f.qual, pvar, srcs), f.loc(loop))
+
+
+# ------------------------------------------------------------------------------
+# R15.6  one clock for the timeout
+#
+CLOCKS = ('time', 'monotonic', 'perf_counter', 'process_time', 'thread_time',
+          'clock_gettime')
+CLOCK_NAMES = {'time.%s%s' % (c, sfx) for c in CLOCKS for sfx in ('', '_ns')} \
+    | {'timeit.default_timer'}
+PURE_CALLS = ('float', 'int', 'abs', 'min', 'max', 'round', 'bool', 'len',
+              'is_set', 'isinstance')
+
+
+def clock_of(prog, f, call, limports):
+    r = prog.resolve(f.module, call.func, limports)
+    if r and r[0] == 'ext' and r[1] in CLOCK_NAMES:
+        return r[1]
+    return None
+
+
+class ClockReads:
+    """clock reads and parameters an expression is computed from, following
+    local names to the definitions that reach the use and single-`return`
+    helpers into their body"""
+
+    def __init__(self, prog, f, g):
+        self.prog, self.f, self.g = prog, f, g
+        self.limports = f.module.local_imports(f.node)
+        self.clocks = {}        # clock -> [text of the read]
+        self.params = set()
+        self.unknown = []       # calls the analysis cannot look into
+        self.seen = set()
+
+    def expr(self, e, at, f=None, g=None, depth=0):
+        from ..flow import reaching_defs
+        f = f or self.f
+        g = g if g is not None else self.g
+        skip = set()
+        for x in walk(e, nested=True):
+            if isinstance(x, ast.Call):
+                limp = self.limports if f is self.f else \
+                    f.module.local_imports(f.node)
+                c = clock_of(self.prog, f, x, limp)
+                if c is not None:
+                    self.clocks.setdefault(c, []).append(
+                        '%s (%s)' % (unparse(x), f.loc(x)))
+                    continue
+                last = call_name(x).split('.')[-1]
+                h = self.prog.resolve_call(f, x) if depth < 3 else None
+                rets = [] if h is None else [
+                    r for r in walk(h.node) if isinstance(r, ast.Return)]
+                if h is not None and h is not f and len(rets) == 1 and \
+                        rets[0].value is not None:
+                    hg = cfg_of(h)
+                    rn = [n for n in hg.nodes if n.ast is rets[0]]
+                    if rn:
+                        self.expr(rets[0].value, rn[0].id, h, hg, depth + 1)
+                        continue
+                if last not in PURE_CALLS:
+                    self.unknown.append(x)
+        for x in walk(e, nested=True):
+            if not (isinstance(x, ast.Name) and isinstance(x.ctx, ast.Load)):
+                continue
+            if f is self.f and x.id in f.params:
+                self.params.add(x.id)
+            key = (f.where, x.id, at)
+            if key in self.seen:
+                continue
+            self.seen.add(key)
+            for dn, v in reaching_defs(g, x.id, at):
+                if v is not None:
+                    self.expr(v, dn.id, f, g, depth)
+                elif dn.kind == 'stmt' and isinstance(dn.ast, ast.AugAssign):
+                    self.expr(dn.ast.value, dn.id, f, g, depth)
+        return self
+
+
+def r15_6(prog, rep, rid='R15.6'):
+    rep.rule(rid, 'the elapsed time a wait compares with its timeout is the '
+             'difference of two reads of the same clock', minimum=4)
+    ORD = (ast.Lt, ast.LtE, ast.Gt, ast.GtE)
+    for rel, cname, mname, what in ANCHORS:
+        f = prog.method(rel, cname, mname)
+        rep.saw(f)
+        g = cfg_of(f)
+        head = wait_loop(f, g)
+        tname = 'timeout'
+        if tname not in f.params:
+            raise AnalysisError('anchor %s has no parameter `timeout`'
+                                % f.where)
+        found = 0
+        for n in g.nodes:
+            if not (n.id in g.loop_body[head] or n.id == head) or \
+                    n.kind not in ('stmt', 'test') or n.ast is None:
+                continue
+            exprs = [n.ast]
+            for c in calls_in(n.ast):
+                body = inline_pred(prog, f, c)
+                if body is not None:
+                    exprs.append(body)
+            for cmp_ in [x for e in exprs for x in walk(e)]:
+                if not (isinstance(cmp_, ast.Compare) and
+                        any(isinstance(o, ORD) for o in cmp_.ops)):
+                    continue
+                cr = ClockReads(prog, f, g).expr(cmp_, n.id)
+                if tname not in cr.params:
+                    continue
+                if not cr.clocks:
+                    if cr.unknown:
+                        raise AnalysisError(
+                            'UNRECOGNISED-IDIOM %s: the timeout test `%s` '
+                            'reads no known clock but calls `%s`'
+                            % (f.where, short(cmp_, 60),
+                               short(cr.unknown[0], 40)))
+                    continue
+                found += 1
+                kinds = sorted(cr.clocks)
+                base = {k[:-3] if k.endswith('_ns') else k for k in kinds}
+                if len(kinds) > 1 and len(base) == 1:
+                    raise AnalysisError(
+                        'UNRECOGNISED-IDIOM %s: the timeout test `%s` mixes '
+                        '%s (same clock, different units)'
+                        % (f.where, short(cmp_, 60), kinds))
+                detail = '; '.join('%s: %s' % (k, ', '.join(cr.clocks[k][:2]))
+                                   for k in kinds)
+                rep.check(len(kinds) == 1, rid, f,
+                          '%s: `%s` measures the elapsed time with %s only'
+                          % (f.qual, short(cmp_, 60), kinds[0]),
+                          construct='timeout test on clocks %s'
+                          % ' and '.join(kinds),
+                          message='%s: the timeout test `%s` is computed from '
+                          'reads of different clocks (%s).  %s do not share '
+                          'an origin (epoch vs. an arbitrary point such as '
+                          'boot), so their difference is not an elapsed time: '
+                          'it is off by a huge constant and the test is '
+                          'either never or always true'
+                          % (f.qual, short(cmp_, 80), detail,
+                             ' and '.join(kinds)),
+                          loc=f.loc(cmp_),
+                          history='%s.%s(timeout=5.0) while the %s does not '
+                          'reach the awaited state: the "elapsed time" '
+                          'mixes %s and is off by about 1.7e9 seconds (epoch '
+                          'vs. uptime); the call does not return after 5 '
+                          'seconds (or returns at once)'
+                          % (cname, mname, what, ' and '.join(kinds)))
+        if not found:
+            raise AnalysisError('UNRECOGNISED-IDIOM %s: no test of the polling '
+                                'loop compares the timeout with a time read '
+                                'from a clock' % f.where)
+
+
+# ------------------------------------------------------------------------------
 #
 def run(prog, rep, tier):
     rep.decided = ('for Task.wait, Pilot.wait, TaskManager.wait_tasks and '
@@ -1333,7 +2073,12 @@ def run(prog, rep, tier):
         'infinite path once all awaited entities are final (whatever was '
         'requested) nor once a given timeout has expired (abstract '
         'interpretation with list emptiness, k=1 inner loops); every return '
-        'returns a state read that is not older than the loop.')
+        'returns a state read that is not older than the loop.  For '
+        'wait_tasks / wait_pilots: the keep-waiting condition is right for '
+        'every request and state (state tables), and the check list only '
+        'shrinks from round to round unless leaving it is permanent.  For all '
+        'four: the timeout is compared with a difference of two reads of the '
+        'same clock.')
     rep.undecided = ('"shortly after" (the poll period and scheduling of the '
         'waiting thread); that the state attribute is eventually updated '
         '(C05/C06/C14); the value comparison of wait_tasks for non-final '
@@ -1349,11 +2094,19 @@ def run(prog, rep, tier):
         'whose filter requires a non-final state (under the all-final '
         'assumption) and on the false edge of a truth test; append/extend/+= '
         'make it unknown',
+        'the state of an entity only moves up the value table of states.py '
+        '(C05 / C06): a keep-waiting condition that is false in s1 and true '
+        'in a state of higher value makes re-examination observable',
+        'clock functions are the time.* family and timeit.default_timer, '
+        'resolved through the imports of the module; a clock hidden behind an '
+        'attribute or an unresolvable call is not seen',
     ]
-    r15_1(prog, rep)
-    r15_2(prog, rep)
-    r15_3(prog, rep)
-    r15_4(prog, rep)
+    rep.attempt(r15_1, prog, rep)
+    rep.attempt(r15_2, prog, rep)
+    rep.attempt(r15_3, prog, rep)
+    rep.attempt(r15_4, prog, rep)
+    rep.attempt(r15_5, prog, rep)
+    rep.attempt(r15_6, prog, rep)
 
 
 # ------------------------------------------------------------------------------
@@ -1383,6 +2136,28 @@ _CMP = "                    rps._task_state_values[task.state] < check_state_val
 _P_NORM = ("        if   not state                  : states = rps.FINAL\n"
            "        elif not isinstance(state, list): states = [state]\n"
            "        else                            : states = state\n")
+
+# --- R15.5 / R15.6 sites
+_PM_INIT  = "            to_check = [self._pilots[uid] for uid in uids]\n"
+_PM_WHILE = "        self._rep.idle(mode='start')\n        while to_check and not self._terminate.is_set():\n"
+_PM_FILT  = ("            to_check = [pilot for pilot in to_check\n"
+             "                               if pilot.state not in states and\n"
+             "                                  pilot.state not in rps.FINAL]\n")
+_PM_TMO   = "                if timeout and (timeout <= (time.time() - start)):"
+_TM_INIT  = "            to_check = [self._tasks[uid] for uid in uids]\n"
+_TM_FOR   = "            check_again = list()\n            for task in to_check:\n"
+_TM_COND  = "                if task.state not in rps.FINAL and \\\n" + _CMP
+_TM_TMO   = "            if timeout and (timeout <= (time.time() - start)):"
+_TM_START = "        start    = time.time()\n        to_check = None\n\n        with self._tasks_lock:"
+_PM_START = "        start    = time.time()\n        to_check = None\n\n        with self._pilots_lock:"
+_T_TMO    = "            if timeout and (timeout <= (time.time() - start_wait)):\n                break\n\n            if self._tmgr._terminate.is_set():"
+_P_TMO    = "            if timeout and (timeout <= (time.time() - start_wait)):\n                break\n\n            if self._pmgr._terminate.is_set():"
+_T_START  = "        start_wait = time.time()\n        while self.state not in states and \\\n              self.state not in rps.FINAL:\n\n            time.sleep(0.1)\n\n"
+_TM_LOOP  = ("            check_again = list()\n            for task in to_check:\n\n"
+             "                # we actually don't check if a task is in a specific (set of)\n"
+             "                # state(s), but rather check if it ever *has been* in any of\n"
+             "                # those states\n")
+
 
 MUTATIONS = [
     dict(name='R15.1 Pilot.wait: elif becomes if (F01 in the pilot)',
@@ -1529,6 +2304,69 @@ MUTATIONS = [
          rules=('R15.3',), edits=[
         (_PM, "        if ret_list: return states\n        else       : return states[0]\n\n\n    # --------------------------------------------------------------------------\n    #\n    def _fail_missing_pilots(self):",
               "        return states if ret_list else state\n\n\n    # --------------------------------------------------------------------------\n    #\n    def _fail_missing_pilots(self):")]),
+    # --- R15.5
+    dict(name='R15.5 seed C15-c: wait_pilots filters the full pilot list every round',
+         rules=('R15.5',), edits=[
+        (_PM, _PM_INIT, "            pilots = [self._pilots[uid] for uid in uids]\n"),
+        (_PM, _PM_WHILE, "        self._rep.idle(mode='start')\n        to_check = pilots\n        while to_check and not self._terminate.is_set():\n"),
+        (_PM, _PM_FILT, _PM_FILT.replace("for pilot in to_check", "for pilot in pilots"))],
+         note='a pilot that matched PMGR_LAUNCHING and moved on is waited for again'),
+    dict(name='R15.5 wait_pilots: loop form appends from a copy of the full list',
+         rules=('R15.5',), edits=[
+        (_PM, _PM_INIT, "            everything = [self._pilots[uid] for uid in uids]\n            to_check = list(everything)\n"),
+        (_PM, _PM_FILT,
+              "            pending = list()\n            for p in sorted(everything, key=lambda x: x.uid):\n"
+              "                if p.state in rps.FINAL or p.state in states:\n                    continue\n"
+              "                pending.append(p)\n            to_check = pending\n")]),
+    dict(name='R15.5 wait_pilots: only the not-yet-active branch re-reads the full list',
+         rules=('R15.5',), edits=[
+        (_PM, _PM_INIT, "            pilots = [self._pilots[uid] for uid in uids]\n            to_check = pilots\n"),
+        (_PM, _PM_FILT,
+              "            source = to_check\n            if len(to_check) < len(pilots):\n                source = pilots\n"
+              + _PM_FILT.replace("for pilot in to_check", "for pilot in source"))],
+         note='one path through the round rebuilds the list from all pilots'),
+    dict(name='R15.5 wait_tasks: membership test and the full task list every round',
+         rules=('R15.5',), edits=[
+        (_TM, _TM_INIT, "            tasks    = [self._tasks[uid] for uid in uids]\n            to_check = tasks\n"),
+        (_TM, _TM_FOR, "            check_again = list()\n            for task in tasks:\n"),
+        (_TM, _TM_COND, "                if task.state not in rps.FINAL and \\\n                    task.state not in states:")],
+         note='the sibling site with the same mistake'),
+    dict(name='R15.5 wait_pilots: handles looked up afresh in every round, then filtered',
+         rules=('R15.5',), edits=[
+        (_PM, _PM_FILT,
+              "            with self._pilots_lock:\n                current = [self._pilots[uid] for uid in uids]\n"
+              + _PM_FILT.replace("for pilot in to_check", "for pilot in current"))],
+         note='the same mistake, the full list re-read from the manager table'),
+    # --- R15.6
+    dict(name='R15.6 seed C15-d: wait_tasks timeout on time.monotonic, start on time.time',
+         rules=('R15.6',), edits=[
+        (_TM, _TM_TMO, _TM_TMO.replace("time.time()", "time.monotonic()"))]),
+    dict(name='R15.6 wait_pilots: start stamp from the monotonic clock only',
+         rules=('R15.6',), edits=[
+        (_PM, _PM_START, _PM_START.replace("time.time()", "time.monotonic()"))]),
+    dict(name='R15.6 Task.wait: elapsed in a local, perf_counter against time.time',
+         rules=('R15.6',), edits=[
+        (_T, _T_TMO, "            waited = time.perf_counter() - start_wait\n            if timeout and waited >= timeout:\n                break\n\n            if self._tmgr._terminate.is_set():")]),
+    dict(name='R15.6 Pilot.wait: deadline from time.time, compared with time.monotonic',
+         rules=('R15.6',), edits=[
+        (_P, _P_TMO, "            if timeout and time.monotonic() >= start_wait + timeout:\n                break\n\n            if self._pmgr._terminate.is_set():")]),
+    dict(name='R15.6 wait_tasks: now() helper reads another clock than the start stamp',
+         rules=('R15.6',), edits=[
+        (_TM, _TM_TMO, "            if timeout and (timeout <= (self._now() - start)):"),
+        (_TM, "    def wait_tasks(self, uids=None, state=None, timeout=None):\n",
+              "    @staticmethod\n    def _now():\n\n        return time.monotonic()\n\n\n"
+              "    def wait_tasks(self, uids=None, state=None, timeout=None):\n")]),
+    dict(name='R15.6 wait_tasks: extracted timeout predicate reads the monotonic clock',
+         rules=('R15.6',), edits=[
+        (_TM, _TM_TMO, "            if self._timed_out(start, timeout):"),
+        (_TM, "    def wait_tasks(self, uids=None, state=None, timeout=None):\n",
+              "    @staticmethod\n    def _timed_out(start, timeout):\n\n"
+              "        return bool(timeout) and timeout <= (time.monotonic() - start)\n\n\n"
+              "    def wait_tasks(self, uids=None, state=None, timeout=None):\n")]),
+    dict(name='R15.6 wait_pilots: deadline from the monotonic clock, compared with time.time',
+         rules=('R15.6',), edits=[
+        (_PM, _PM_START, "        start    = time.time()\n        deadline = time.monotonic() + timeout if timeout else None\n        to_check = None\n\n        with self._pilots_lock:"),
+        (_PM, _PM_TMO, "                if deadline is not None and time.time() >= deadline:")]),
 ]
 
 SILENT = [
@@ -1594,4 +2432,75 @@ SILENT = [
     dict(name='corpus r3: wait_pilots returns through a conditional expression', edits=[
         (_PM, "        if ret_list: return states\n        else       : return states[0]\n\n\n    # --------------------------------------------------------------------------\n    #\n    def _fail_missing_pilots(self):",
               "        return states if ret_list else states[0]\n\n\n    # --------------------------------------------------------------------------\n    #\n    def _fail_missing_pilots(self):")]),
+    # --- R15.5 site
+    dict(name='wait_pilots: handles kept for the result, check list is a copy that shrinks', edits=[
+        (_PM, _PM_INIT, "            pilots = [self._pilots[uid] for uid in uids]\n"),
+        (_PM, _PM_WHILE, "        self._rep.idle(mode='start')\n        to_check = list(pilots)\n        while to_check and not self._terminate.is_set():\n"),
+        (_PM, "        state = None\n        with self._pilots_lock:\n            states = [self._pilots[uid].state for uid in uids]\n",
+              "        states = [pilot.state for pilot in pilots]\n")],
+         note='C15-c without the mistake'),
+    dict(name='wait_pilots: previous check list through a renamed local', edits=[
+        (_PM, _PM_FILT,
+              "            before   = to_check\n"
+              "            to_check = [p for p in before\n"
+              "                               if p.state not in states and\n"
+              "                                  p.state not in rps.FINAL]\n")]),
+    dict(name='wait_pilots: survivors collected in a loop over a sorted copy, early continue', edits=[
+        (_PM, _PM_FILT,
+              "            survivors = []\n"
+              "            for p in sorted(to_check, key=lambda x: x.uid):\n"
+              "                if p.state in states:\n                    continue\n"
+              "                if p.state in rps.FINAL:\n                    continue\n"
+              "                survivors += [p]\n"
+              "            to_check = survivors\n")]),
+    dict(name='wait_tasks: every round re-filters all awaited tasks (leaving is permanent)', edits=[
+        (_TM, _TM_INIT, "            tasks    = [self._tasks[uid] for uid in uids]\n            to_check = tasks\n"),
+        (_TM, _TM_FOR, "            check_again = list()\n            for task in tasks:\n")],
+         note='value(state) < earliest requested value never becomes true again; '
+              'only the progress marks repeat'),
+    dict(name='wait_tasks: check list rebuilt by a comprehension, progress marks counted', edits=[
+        (_TM, _TM_LOOP[:_TM_LOOP.index("\n                # we")] ,
+              "            check_again = [t for t in to_check\n"
+              "                             if t.state not in rps.FINAL and\n"
+              "                                rps._task_state_values[t.state] < check_state_val]\n"
+              "            for _ in range(len(to_check) - len(check_again)):\n"
+              "                self._rep.progress()\n"
+              "            to_check = check_again\n"
+              "            continue\n\n"
+              "            check_again = list()\n            for task in to_check:\n")]),
+    # --- R15.6 site
+    dict(name='wait_tasks: start stamp and timeout test both on the monotonic clock', edits=[
+        (_TM, _TM_START, _TM_START.replace("time.time()", "time.monotonic()")),
+        (_TM, _TM_TMO, _TM_TMO.replace("time.time()", "time.monotonic()"))]),
+    dict(name='Task.wait: now hoisted into a local, elapsed on the left', edits=[
+        (_T, _T_TMO, "            now = time.time()\n            if timeout and (now - start_wait) >= timeout:\n                break\n\n            if self._tmgr._terminate.is_set():")]),
+    dict(name='Pilot.wait: deadline form on one clock', edits=[
+        (_P, _P_TMO, "            if timeout and time.time() >= start_wait + timeout:\n                break\n\n            if self._pmgr._terminate.is_set():")]),
+    dict(name='wait_tasks: now() helper on the clock of the start stamp', edits=[
+        (_TM, _TM_TMO, "            if timeout and (timeout <= (self._now() - start)):"),
+        (_TM, _TM_START, _TM_START.replace("time.time()", "self._now()")),
+        (_TM, "    def wait_tasks(self, uids=None, state=None, timeout=None):\n",
+              "    @staticmethod\n    def _now():\n\n        return time.time()\n\n\n"
+              "    def wait_tasks(self, uids=None, state=None, timeout=None):\n")]),
+    dict(name='wait_pilots: the log line reads another clock, the timeout test does not', edits=[
+        (_PM, "                    self._log.debug (\"wait timed out\")\n                    break\n\n            time.sleep (0.1)\n\n        self._rep.idle(mode='stop')",
+              "                    self._log.debug (\"wait timed out at %.1f\", time.monotonic())\n                    break\n\n            time.sleep (0.1)\n\n        self._rep.idle(mode='stop')")]),
+    dict(name='wait_pilots: filter extracted into a static helper', edits=[
+        (_PM, _PM_FILT, "            to_check = self._still_waiting(to_check, states)\n"),
+        (_PM, "    def wait_pilots(self, uids=None, state=None, timeout=None):\n",
+              "    @staticmethod\n    def _still_waiting(pilots, states):\n\n"
+              "        return [pilot for pilot in pilots\n                      if pilot.state not in states and\n                         pilot.state not in rps.FINAL]\n\n\n"
+              "    def wait_pilots(self, uids=None, state=None, timeout=None):\n")]),
+    dict(name='wait_pilots: `while True` with the emptiness test as a break', edits=[
+        (_PM, "        while to_check and not self._terminate.is_set():\n\n            self._rep.idle()\n",
+              "        while True:\n\n            if not to_check:\n                break\n            if self._terminate.is_set():\n                break\n\n            self._rep.idle()\n")]),
+    dict(name='wait_tasks: timeout test extracted into a static predicate', edits=[
+        (_TM, _TM_TMO, "            if self._timed_out(start, timeout):"),
+        (_TM, "    def wait_tasks(self, uids=None, state=None, timeout=None):\n",
+              "    @staticmethod\n    def _timed_out(start, timeout):\n\n"
+              "        return bool(timeout) and timeout <= (time.time() - start)\n\n\n"
+              "    def wait_tasks(self, uids=None, state=None, timeout=None):\n")]),
+    dict(name='wait_pilots: deadline computed once before the loop', edits=[
+        (_PM, _PM_START, "        start    = time.time()\n        deadline = start + timeout if timeout else None\n        to_check = None\n\n        with self._pilots_lock:"),
+        (_PM, _PM_TMO, "                if deadline is not None and time.time() >= deadline:")]),
 ]
